@@ -2,8 +2,8 @@ package verifsim
 
 import (
 	"bytes"
-	"errors"
 	"context"
+	"errors"
 	"fmt"
 	"math/rand/v2"
 	"time"
